@@ -72,9 +72,9 @@ func mgrOnce(kind string, n int) string {
 	if len(p) > 0 {
 		return "panic " + p[0]
 	}
-	late := withWatchdog(5*time.Second, func() string { after(); return "ok" })
+	late := withWatchdog(patient(), func() string { after(); return "ok" })
 	cancel()
-	g, _ := leaked(base, 3*time.Second)
+	g, _ := leaked(base, leakWait())
 	c := 0
 	if isClosed() {
 		c = 1
